@@ -159,15 +159,26 @@ Proof.
     + constructor; [cbn; lia|constructor].
 Qed.
 
-(* ---- the fragment loops agree ---- *)
+(* ---- the fragment loops agree, and every copy lies inside the bytes the frames occupy ---- *)
+Lemma copies_inside_weaken lo hi lo' hi' cs : lo' <= lo -> hi <= hi' -> copies_inside lo hi cs -> copies_inside lo' hi' cs.
+Proof. intros H1 H2 H. eapply Forall_impl; [|exact H]. cbn. intros c Hc. lia. Qed.
+
+Lemma frag_span_nonneg fuel mpl : 0 < mpl -> forall remaining, 0 < remaining -> 0 <= frag_span fuel mpl remaining.
+Proof. intros Hm. induction fuel as [|f IH]; intros remaining Hr; cbn [frag_span]; [lia|].
+  rewrite HDR_eq, FA_eq. pose proof (align_bounds (Z.min remaining mpl + 32) ltac:(lia)) as [Ha _].
+  destruct (remaining - Z.min remaining mpl <=? 0) eqn:E; [lia|].
+  pose proof (IH (remaining - Z.min remaining mpl) ltac:(lia)). lia. Qed.
+
 Lemma bulk_frag_loop_eq l rv tid mpl length msg : 0 < mpl -> zlen msg = length ->
   forall fuel flags remaining frame_offset cu,
   0 < remaining <= length -> cursor_ok cu -> cursor_data cu = skipn (Z.to_nat (length - remaining)) msg ->
-  bulk_frag_loop fuel l rv tid mpl flags remaining frame_offset cu
-  = Ok (frag_loop fuel l rv tid mpl length msg flags remaining frame_offset).
+  exists cs, bulk_frag_loop fuel l rv tid mpl flags remaining frame_offset cu
+             = Ok (frag_loop fuel l rv tid mpl length msg flags remaining frame_offset, cs) /\
+             copies_inside frame_offset (frame_offset + frag_span fuel mpl remaining) cs.
 Proof.
-  intros Hmpl Hlen. induction fuel as [|f IH]; intros flags remaining frame_offset cu Hrem Hok Hdata; [reflexivity|].
-  cbn [bulk_frag_loop frag_loop].
+  intros Hmpl Hlen. induction fuel as [|f IH]; intros flags remaining frame_offset cu Hrem Hok Hdata.
+  { exists []. split; [reflexivity|constructor]. }
+  cbn [bulk_frag_loop frag_loop frag_span].
   set (btw := Z.min remaining mpl).
   assert (Hbtw : 0 < btw <= remaining) by lia.
   assert (Hz : zlen (cursor_data cu) = remaining).
@@ -180,12 +191,47 @@ Proof.
   assert (Hbody : firstn (Z.to_nat btw) (cursor_data cu) = slice msg (length - remaining) btw).
   { unfold slice. rewrite Hdata. reflexivity. }
   rewrite Hbody.
-  destruct (remaining - btw <=? 0) eqn:Eend; [reflexivity|].
-  rewrite (IH 0 (remaining - btw) (frame_offset + align (btw + HDR) FA) cu').
-  - reflexivity.
-  - lia.
-  - exact I3.
-  - rewrite I2, Hdata. rewrite skipn_zadd by lia. f_equal. lia.
+  pose proof (align_bounds (btw + 32) ltac:(lia)) as [Ha _]. rewrite HDR_eq, FA_eq in *.
+  destruct (remaining - btw <=? 0) eqn:Eend.
+  - exists cs. split; [reflexivity|]. eapply copies_inside_weaken; [| |exact I4]; lia.
+  - destruct (IH 0 (remaining - btw) (frame_offset + align (btw + 32) 32) cu') as (cs2 & E2 & In2).
+    + lia.
+    + exact I3.
+    + rewrite I2, Hdata. rewrite skipn_zadd by lia. f_equal. lia.
+    + rewrite E2. cbn [bind fst snd]. exists (cs ++ cs2). split; [reflexivity|].
+      pose proof (frag_span_nonneg f mpl Hmpl (remaining - btw) ltac:(lia)) as Hsp.
+      apply Forall_app. split.
+      * eapply copies_inside_weaken; [| |exact I4]; lia.
+      * eapply copies_inside_weaken; [| |exact In2]; lia.
+Qed.
+
+(* with an MTU that is a multiple of the frame alignment the frames of the loop occupy exactly required_length bytes *)
+Lemma align_exact v : v mod 32 = 0 -> align v 32 = v.
+Proof. intros H. unfold align. pose proof (Z.div_mod v 32 ltac:(lia)).
+  replace (v + (32 - 1)) with (31 + (v / 32) * 32) by lia. rewrite Z.div_add by lia.
+  replace (31 / 32) with 0 by reflexivity. lia. Qed.
+
+Lemma frag_span_required mpl : 0 < mpl -> mpl mod 32 = 0 ->
+  forall fuel remaining, 0 < remaining -> (Z.to_nat (remaining / mpl) < fuel)%nat ->
+  frag_span fuel mpl remaining = frag_required_spec remaining mpl.
+Proof. intros Hm Hm32. induction fuel as [|f IH]; intros remaining Hr Hf; [inversion Hf|].
+  cbn [frag_span]. unfold frag_required_spec. rewrite HDR_eq, FA_eq.
+  assert (Hfull : align (mpl + 32) 32 = mpl + 32).
+  { apply align_exact. rewrite <- Zplus_mod_idemp_l. rewrite Hm32. reflexivity. }
+  destruct (Z.le_gt_cases remaining mpl) as [Hle | Hgt].
+  - rewrite Z.min_l by assumption. replace (remaining - remaining) with 0 by ring. cbn [Z.leb Z.compare].
+    destruct (Z.eq_dec remaining mpl) as [-> | Hne].
+    + rewrite Z_div_same_full by lia. rewrite Z_mod_same_full. cbn [Z.ltb Z.compare]. lia.
+    + rewrite Z.div_small by lia. rewrite Z.mod_small by lia.
+      assert (E : (0 <? remaining) = true) by lia. rewrite E. lia.
+  - rewrite Z.min_r by lia. assert (E : (remaining - mpl <=? 0) = false) by lia. rewrite E.
+    assert (Hd : (remaining - mpl) / mpl = remaining / mpl - 1).
+    { replace (remaining - mpl) with (remaining + (-1) * mpl) by ring. rewrite Z.div_add by lia. ring. }
+    assert (Hmod : (remaining - mpl) mod mpl = remaining mod mpl).
+    { replace (remaining - mpl) with (remaining + (-1) * mpl) by ring. apply Z_mod_plus_full. }
+    assert (Hq : 1 <= remaining / mpl) by (apply Z.div_le_lower_bound; lia).
+    rewrite IH; [|lia|rewrite Hd; lia].
+    unfold frag_required_spec. rewrite HDR_eq, FA_eq. rewrite Hd, Hmod, Hfull. ring.
 Qed.
 
 (* the copies of every fragment stay inside that fragment's payload area: the statement about one iteration *)
@@ -214,10 +260,12 @@ Proof. intros Hm Hlen. unfold ta_append_fragmented_bulk, ta_append_fragmented. f
   destruct (l_tlen l <? c_off c + req); [reflexivity|].
   destruct bufs as [|b r].
   - unfold total in Hlen. cbn in Hlen. lia.
-  - rewrite (bulk_frag_loop_eq (c_log c) rv (c_tid c) mpl (total (b :: r)) (concat (b :: r))); try assumption; try reflexivity.
+  - destruct (bulk_frag_loop_eq (c_log c) rv (c_tid c) mpl (total (b :: r)) (concat (b :: r)) Hm eq_refl
+                (frag_fuel (total (b :: r)) mpl) F_BEGIN (total (b :: r)) (c_off c) (mkCursor b 0 r)) as (cs & E & _).
     + lia.
     + unfold cursor_ok. cbn [cu_off cu_buf]. pose proof (zlen_nonneg b). lia.
-    + unfold cursor_data. cbn [cu_buf cu_off cu_rest Z.to_nat skipn]. rewrite Z.sub_diag. reflexivity. Qed.
+    + unfold cursor_data. cbn [cu_buf cu_off cu_rest Z.to_nat skipn]. rewrite Z.sub_diag. reflexivity.
+    + rewrite E. reflexivity. Qed.
 
 Lemma eta_unfrag_bulk_eq m rv l idx tid off bufs :
   eta_append_unfragmented_bulk m rv l idx tid off bufs (total bufs) = eta_append_unfragmented m rv l idx tid off (concat bufs).
